@@ -395,8 +395,12 @@ def unroll_literal_loops(tree, max_items=16, max_body=4):
     import copy
     count = 0
 
+    PURE_METHODS = {'startswith', 'endswith', 'lower', 'upper', 'strip', 'count', 'find', 'index', 'get', 'isupper', 'islower', 'isdigit'}
+
     def simple(e):
-        return not any(isinstance(n, (ast.Call, ast.Yield, ast.YieldFrom, ast.Await, ast.NamedExpr, ast.Lambda)) for n in ast.walk(e))
+        # call-free, or only calls of side-effect free string / mapping methods (evaluating them later or more than once changes nothing)
+        return not any(isinstance(n, (ast.Yield, ast.YieldFrom, ast.Await, ast.NamedExpr, ast.Lambda)) or
+                       (isinstance(n, ast.Call) and not (isinstance(n.func, ast.Attribute) and n.func.attr in PURE_METHODS)) for n in ast.walk(e))
 
     class Sub(ast.NodeTransformer):
         def __init__(self, m):
@@ -419,8 +423,17 @@ def unroll_literal_loops(tree, max_items=16, max_body=4):
             if isinstance(s, ast.Try):
                 for h in s.handlers:
                     h.body = rewrite(h.body)
+            guards = []
+            rest_body = list(s.body) if isinstance(s, ast.For) else []
+            while rest_body and isinstance(rest_body[0], ast.If) and not rest_body[0].orelse and len(rest_body[0].body) == 1 and isinstance(rest_body[0].body[0], ast.Continue):
+                guards.append(rest_body[0].test)
+                rest_body = rest_body[1:]
+            simple_body = isinstance(s, ast.For) and all(isinstance(b, (ast.Expr, ast.Assign, ast.AugAssign)) for b in s.body)
+            # a rule table walked by a loop: leading `if c: continue` guards, then statements without break / continue (returns allowed)
+            table_body = isinstance(s, ast.For) and bool(rest_body) and len(rest_body) <= 8 and not any(
+                isinstance(n, (ast.Break, ast.Continue, ast.For, ast.While, ast.Try, ast.With, ast.FunctionDef, ast.Yield, ast.YieldFrom)) for b in rest_body for n in ast.walk(b))
             if (isinstance(s, ast.For) and not s.orelse and isinstance(s.iter, (ast.List, ast.Tuple)) and 1 < len(s.iter.elts) <= max_items
-                    and len(s.body) <= max_body and all(isinstance(b, (ast.Expr, ast.Assign, ast.AugAssign)) for b in s.body)):
+                    and ((len(s.body) <= max_body and simple_body) or table_body)):
                 tg = s.target
                 names = [tg.id] if isinstance(tg, ast.Name) else [e.id for e in tg.elts] if isinstance(tg, ast.Tuple) and all(isinstance(e, ast.Name) for e in tg.elts) else None
                 ok = names is not None and all(simple(e) for e in s.iter.elts)
@@ -429,12 +442,27 @@ def unroll_literal_loops(tree, max_items=16, max_body=4):
                 if ok:
                     stored = {n.id for b in s.body for n in ast.walk(b) if isinstance(n, ast.Name) and isinstance(n.ctx, ast.Store)}
                     ok = not (stored & set(names))
+                if ok and not simple_body:
+                    # table elements are evaluated once per row in the loop form; substituting them into guards and body evaluates them as
+                    # often as they are used there: only call-free elements qualify (already required), attribute reads are repeatable
+                    pass
                 if ok:
                     # the names must not be read after the loop (the unrolled form leaves them unbound)
                     for e in s.iter.elts:
                         m = {names[0]: e} if isinstance(tg, ast.Name) else dict(zip(names, e.elts))
-                        for b in s.body:
-                            out.append(ast.copy_location(Sub(m).visit(copy.deepcopy(b)), s))
+                        if simple_body:
+                            for b in s.body:
+                                out.append(ast.copy_location(Sub(m).visit(copy.deepcopy(b)), s))
+                        else:
+                            inner = [ast.copy_location(Sub(m).visit(copy.deepcopy(b)), s) for b in rest_body]
+                            if guards:
+                                conds = [push_not(Sub(m).visit(copy.deepcopy(g_))) for g_ in guards]
+                                test = conds[0] if len(conds) == 1 else ast.BoolOp(op=ast.And(), values=conds)
+                                node_ = ast.copy_location(ast.If(test=test, body=inner, orelse=[]), s)
+                                ast.fix_missing_locations(node_)
+                                out.append(node_)
+                            else:
+                                out.extend(inner)
                     count += 1
                     continue
             out.append(s)
